@@ -103,6 +103,17 @@ func lastAfterFailingSubscript() []*Expr {
 			eInt(0).withSteps(sFilter(eOr(eCmp("==", in, eInt(1)), eCmp("==", eCur(), eInt(0))))))
 	}
 	var es []*Expr
+	// `last` only inside a filter (or exists) that is itself inside the subscript: it denotes the
+	// subscripted array, also when an outer subscript has set another size before
+	var inF []*Expr
+	for _, k := range []int64{0, 1} {
+		inF = append(inF, eInt(k).withSteps(sFilter(eCmp("<", eCur(), eLast()))), eInt(k).withSteps(sFilter(eCmp("<=", eCur(), eLast()))), eInt(k).withSteps(sFilter(eCmp(">", eLast(), eInt(0)))),
+			eInt(k).withSteps(sFilter(eExists(eLast()))), eRoot(idx(eInt(0)), idx(eInt(0))).withSteps(sFilter(eCmp("<=", eCur(), eLast()))))
+	}
+	for _, x := range inF {
+		es = append(es, eRoot(idx(x)), eRoot(sIndex(subR(eInt(0), x))), eRoot(idx(eInt(0), x)), eRoot(idx(eLast()), idx(x)), eRoot(idx(eInt(0)), idx(x)),
+			eRoot(sAnyArray(), sFilter(eExists(eCur(idx(x))))), eRoot(sKey("a"), idx(x)))
+	}
 	for _, x := range xs {
 		es = append(es, eRoot(sIndex(subR(x, eLast()))), eRoot(idx(x, eLast())), eRoot(idx(eLast(), x, eLast())), eRoot(sIndex(subR(x, lastMinus(1)))),
 			eRoot(sIndex(subR(x, eLast())), sIndex(sub1(eLast()))), eRoot(sAnyArray(), sFilter(eCmp("==", eCur(), eRoot(sIndex(sub1(x), sub1(eLast())))))))
